@@ -28,6 +28,8 @@ func runC08(c *ShardCtx) {
 	nontriv := func(ref *peg.Result, obs *rtapi.Obs) bool { return ref.Matched && ref.End >= 3 }
 	idx := 0
 	var leader string
+	// pickErr: which blocks return an error in the erroring variant (default: every other action)
+	var pickErr func(i int, b *peg.Expr) bool
 	run := func(g *peg.Grammar, inputs [][]byte, errBlock bool, eps []*string) {
 		idx++
 		if !c.Mine(idx) {
@@ -53,7 +55,7 @@ func runC08(c *ShardCtx) {
 		s := map[int]*rtapi.Block{}
 		for i, b := range g.Blocks() {
 			s[b.ID] = &rtapi.Block{Ops: allOps}
-			if errBlock && b.K == peg.KAction && i%2 == 0 {
+			if errBlock && b.K == peg.KAction && ((pickErr == nil && i%2 == 0) || (pickErr != nil && pickErr(i, b))) {
 				s[b.ID].Err = "e" + itoa(b.ID)
 			}
 		}
@@ -65,7 +67,7 @@ func runC08(c *ShardCtx) {
 			}
 		}
 		fam := &family{gens: gens, inputs: inputs, opts: os, scripts: []map[int]*rtapi.Block{s}, nontrivial: nontriv,
-			cmp: core.CmpOpts{SkipLog: true, SkipNoMatch: true}, confEvery: 211, confQuota: 1,
+			cmp: core.CmpOpts{SkipLog: true, SkipNoMatch: true, SkipInnerSeq: true}, confEvery: 211, confQuota: 1,
 			// the leader's result is memoised, so block invocation counts legitimately
 			// differ from the reference; what must agree is the final store (snapshot
 			// taken by the wrapper's probe), the value and the errors
@@ -118,6 +120,47 @@ func runC08(c *ShardCtx) {
 			}
 		}
 		return g
+	}
+	// (r) the same error made twice: an operand whose action returns an error is evaluated inside a
+	// growth attempt that is discarded (the attempt fails on a trailing terminal, or is the final
+	// non-extending one) and then AGAIN, for real, at the same position - by the caller of the
+	// recursive rule, by a later alternative, or by the next attempt. The error of the discarded
+	// attempt must go, the error of the real evaluation must be in the list (once)
+	{
+		lit := peg.Lit
+		N := func() *peg.Rule { return &peg.Rule{Name: "N", Expr: peg.Action(0, peg.Cls(false, false, "a", "b"))} }
+		es := []func() []*peg.Rule{
+			func() []*peg.Rule {
+				return []*peg.Rule{{Name: "E", Expr: peg.Choice(peg.Seq(peg.Ref("E"), lit("b"), peg.Ref("N"), lit("c")), peg.Ref("N"))}, N()}
+			},
+			func() []*peg.Rule {
+				return []*peg.Rule{{Name: "E", Expr: peg.Choice(peg.Seq(peg.Ref("E"), lit("b"), peg.Ref("N"), lit("c")), peg.Seq(peg.Ref("E"), lit("b"), peg.Ref("N")), peg.Seq(peg.Ref("E"), lit("a"), peg.Ref("N"), lit("c")), peg.Ref("N"))}, N()}
+			},
+			func() []*peg.Rule {
+				return []*peg.Rule{{Name: "E", Expr: peg.Choice(peg.Action(0, peg.Seq(peg.Label("l", peg.Ref("E")), lit("b"), peg.Label("r", peg.Ref("N")), lit("c"))), peg.Ref("N"))}, N()}
+			},
+			func() []*peg.Rule {
+				return []*peg.Rule{{Name: "E", Expr: peg.Choice(peg.Seq(peg.Ref("F"), lit("c")), peg.Ref("N"))}, {Name: "F", Expr: peg.Seq(peg.Ref("E"), lit("b"), peg.Ref("N"))}, N()}
+			},
+		}
+		tops := []func() *peg.Expr{
+			func() *peg.Expr { return peg.Seq(peg.Ref("E"), lit("b"), peg.Ref("N")) },
+			func() *peg.Expr { return peg.Seq(peg.Ref("E"), peg.Star(peg.Seq(lit("b"), peg.Ref("N")))) },
+			func() *peg.Expr { return peg.Choice(peg.Seq(peg.Ref("E"), lit("c"), lit("c")), peg.Seq(peg.Ref("E"), lit("b"), peg.Ref("N"), peg.Opt(lit("c")))) },
+			func() *peg.Expr { return peg.Ref("E") },
+		}
+		pickErr = func(i int, b *peg.Expr) bool { return true }
+		for _, e := range es {
+			for _, t := range tops {
+				if c.Expired("repeated-error family") {
+					return
+				}
+				g := &peg.Grammar{Rules: append([]*peg.Rule{{Name: "T", Expr: t()}}, e()...)}
+				run(g, inputsABC, true, def)
+				run(&peg.Grammar{Rules: append([]*peg.Rule{{Name: "T", Expr: t()}}, e()...)}, inputsABC, false, def)
+			}
+		}
+		pickErr = nil
 	}
 	// (a) direct
 	for t1 := range ts {
